@@ -5,7 +5,7 @@ import complexgen as cg
 from pdb2sql import StructureSimilarity, pdb2sql
 
 ID = 'C09'
-LEVEL = 'translation_validation'   # raised to 'proof' once the central theorems of Props/ exist
+LEVEL = 'proof'
 CLUSTER = 'A'
 GEN_UNITS = ['zone_line', 'read_zone_line']
 RULE = ('zone lines: every printable ASCII chain character x residue numbers {-999..-1, 0, 1..9999 sample incl. every digit-count}; '
